@@ -160,6 +160,8 @@ class TlsConn:
             self.cur["c"] = self.ap["c"]
             return
         cert = sh.get("cert_pattern")
+        if isinstance(cert, str):
+            cert = bytes.fromhex(cert)
         cl = sh.get("cert_len", 300)
         certbody = (cert * (cl // len(cert) + 1))[:cl] if cert else g(cl)
         certm = R.hs_msg(11, (len(certbody) + 3).to_bytes(3, "big") + len(certbody).to_bytes(3, "big") + certbody)
